@@ -595,3 +595,82 @@ def rule_splitquote(m, rid):
             if not ok:
                 r.fail("splitquote|unquoted|%s" % A.text(x)[:40], "splitquote marks the unquoted text `%s` as String" % A.text(x), m.loc(f, site))
     return r
+
+
+# ------------------------------------------------------------------------------------------------
+# quoted pieces produced by splitquote are never case-folded downstream (C02.R1, C04)
+# ------------------------------------------------------------------------------------------------
+class FoldClient(F.Client):
+    track = None
+
+    def __init__(self, m, f, string_key, seq_vars):
+        self.m = m
+        self.f = f
+        self.string_key = string_key
+        self.seq_vars = seq_vars
+        self.hits = []
+
+    def for_value(self, loop, st):
+        it = loop.iter
+        src = A.text(it)
+        if any(v in A.names_in(it) for v in self.seq_vars) or "splitquote(" in src:
+            # an element of a splitquote result: a quoted piece (String) or plain text
+            if isinstance(loop.target, ast.Name):
+                return frozenset([("inst", self.string_key), ("c", "<plain text>")])
+        return F.TOP
+
+    def call_effect(self, call, st):
+        fn = call.func
+        if isinstance(fn, ast.Attribute) and fn.attr in ("lower", "upper", "title", "capitalize", "swapcase", "casefold") and isinstance(fn.value, ast.Name):
+            v = st.get(fn.value.id)
+            if any(a == ("inst", self.string_key) for a in v):
+                self.hits.append(call)
+        return (st,)
+
+
+class FoldFlow(F.Flow):
+    def stmt(self, s, states, cur_exc):
+        # `for idx, item in enumerate(items[:])`: bind the second target
+        if isinstance(s, ast.For) and isinstance(s.target, ast.Tuple) and len(s.target.elts) == 2 and isinstance(s.iter, ast.Call) \
+                and A.dotted(s.iter.func) == "enumerate" and s.iter.args and any(v in A.names_in(s.iter.args[0]) for v in self.c.seq_vars):
+            fake = ast.For(target=s.target.elts[1], iter=s.iter.args[0], body=s.body, orelse=s.orelse)
+            ast.copy_location(fake, s)
+            return F.Flow.stmt(self, fake, states, cur_exc)
+        return F.Flow.stmt(self, s, states, cur_exc)
+
+
+def rule_literal_folding(m, rid):
+    r = RuleResult(rid, "wherever the pieces returned by splitquote are processed, a quoted piece (String) is never case-folded")
+    r.floor = 2
+    sk = m.key("String", "fparser.common.splitline")
+    n = 0
+    for (path, q), f in sorted(m.funcs.items()):
+        if not f.module.startswith(("fparser.common.splitline", "fparser.common.readfortran")) or q == "splitquote":
+            continue
+        calls = [c for c in A.calls(f.node) if (A.dotted(c.func) or "").split(".")[-1] == "splitquote"]
+        if not calls:
+            continue
+        seq_vars = set()
+        for x in A.body_nodes(f.node):
+            if isinstance(x, ast.Assign) and isinstance(x.value, ast.Call) and (A.dotted(x.value.func) or "").split(".")[-1] == "splitquote":
+                t = x.targets[0]
+                if isinstance(t, (ast.Tuple, ast.List)) and t.elts and isinstance(t.elts[0], ast.Name):
+                    seq_vars.add(t.elts[0].id)
+                elif isinstance(t, ast.Name):
+                    seq_vars.add(t.id)
+        r.instances += 1
+        n += 1
+        cl = FoldClient(m, f, sk, seq_vars)
+        fl = FoldFlow(m, f, cl)
+        try:
+            fl.run(F.State({}))
+        except AnalysisError as err:
+            r.undet("%s: %s" % (q, err))
+            continue
+        r.ob(not cl.hits, "%s: pieces of splitquote %s" % (q, sorted(seq_vars) or "(iterated directly)"))
+        for c in cl.hits[:2]:
+            r.fail("%s|fold|%s" % (q, A.text(c)[:30]), "%s applies `%s` to a piece of a splitquote result that can be a quoted character "
+                   "literal: literals written in mixed case are changed" % (q, A.text(c)[:40]), m.loc(f, c))
+    if n < 2:
+        r.error("fewer than 2 consumers of splitquote found")
+    return r
